@@ -14,14 +14,6 @@ PID = 'C40'
 SHORT = 'retained'
 
 ENV = '''
-#[derive(Debug, Clone, Copy, PartialEq, Eq, Structural)]
-pub struct StatusCode { pub bits: u32 }
-impl StatusCode {
-    pub const Good: StatusCode = StatusCode { bits: 0 };
-    pub const BadSequenceNumberUnknown: StatusCode = StatusCode { bits: 0x807A_0000 };
-    pub const BadSubscriptionIdInvalid: StatusCode = StatusCode { bits: 0x8028_0000 };
-    pub const BadMessageNotAvailable: StatusCode = StatusCode { bits: 0x807B_0000 };
-}
 pub struct RequestHeader { pub x: u64 }
 pub struct Subscription { pub x: u64 }
 pub struct NotificationMessage { pub sequence_number: u32, pub x: u64 }
@@ -158,6 +150,7 @@ def build(manifest):
     ])
     a = Asm()
     a.add('use vstd::prelude::*;\nverus! {\nglobal size_of usize == 8;\n', 'prelude', 'env')
+    a.add(status_code_struct(manifest), 'status codes', 'env')      # every status code of the real file (D14)
     a.add(ENV, 'env', 'env')
     a.add(norm_vis(types), 'types', 'env')
     a.add('impl Subscriptions {')
